@@ -389,7 +389,7 @@ string Subprocess::communicate(
   size_t stdin_offset = 0;
   size_t stdout_bytes = 0;
   deque<string> stdout_queue;
-  while ((this->wait(true) < 0) && (now() < deadline_usecs)) {
+  while ((this->wait(true) < 0) && (!deadline_usecs || (now() < deadline_usecs))) {
     if (p.empty()) {
       this->wait();
       break;
@@ -439,7 +439,9 @@ string Subprocess::communicate(
     }
   }
 
-  if (now() >= deadline_usecs) {
+  if (this->wait(true) < 0) {
+    // The loop above ends only when the process has terminated or the deadline
+    // has passed, so the process is still running only if it timed out.
     // TODO: we should be a bit more polite here - send SIGTERM, wait a few
     // seconds, then send SIGKILL
     this->kill(SIGKILL);
